@@ -160,6 +160,22 @@ def do_case(case):
     pf2.run()
     oth.add_run(pf2)
     r['perfect'] = {'before': bf, 'other': ot, 'merged': summary(pf), 'merged_reverse': summary(oth)}
+    # bootstraps and runs INTERLEAVED on one parent: a bootstrap is added, a run is derived from the parent (a copy that carries the table
+    # so far) and reaches a better fit, another bootstrap is added to the parent, the derived run is merged, a third bootstrap is added:
+    # the parent's table has exactly one more row per add_bootstrap, in the order they were added
+    par, *_ = mk_inf(dict(case, seed=case['seed'] + 3, loss='l2', x0=None))
+    par.run()
+    rows0 = int(len(par.bootstraps))
+    par.add_bootstrap({k: 1.0 for k in par.bounds})
+    der = par.create_run({k: float(v) for k, v in zip(par.bounds, case['truth'][:nb_])})
+    der.n_runs = 1
+    der.run()
+    par.add_bootstrap({k: 2.0 for k in par.bounds})
+    par.add_run(der)
+    par.add_bootstrap({k: 3.0 for k in par.bounds})
+    k0 = list(par.bounds)[0]
+    r['interleaved_boot'] = {'rows_added': int(len(par.bootstraps)) - rows0, 'first_column': [float(x) for x in list(par.bootstraps[k0])[rows0:]],
+                             'derived_loss': float(der.loss_inferred), 'parent_loss_after': float(par.loss_inferred)}
     return r
 
 
@@ -191,11 +207,16 @@ def do_shared(case):
         if not mc_first:
             out.append(float(c.sfs.get_mutation_config(cfg, 1.0)))
         return out
+    # an EARLIER object is asked again after other parameter sets have been evaluated through the same shared state spaces
+    first1, firstf = inf1.get_coal(N0=ps[0]), coal(ps[0])
+    shared.append([first1.tree_height.mean]); fresh.append([firstf.tree_height.mean])
     for j, a in enumerate(ps):
         c1 = inf1.get_coal(N0=a)
         shared.append(stats1(c1, j % 2 == 0, j % 2 == 1))
         c2 = coal(a)
         fresh.append(stats1(c2, j % 2 == 0, j % 2 == 1))
+    shared.append([first1.tree_height.var, first1.total_branch_length.mean, float(first1.tree_height.cdf(0.5))])
+    fresh.append([firstf.tree_height.var, firstf.total_branch_length.mean, float(firstf.tree_height.cdf(0.5))])
     # parameter sets that change the coalescent MODEL (Beta alpha) while the demography - hence every epoch - stays the same
     mkb = lambda alpha: pg.Coalescent(n=case['n'], model=pg.BetaCoalescent(alpha=alpha), demography=pg.Demography(pop_sizes={'pop_0': {0: 2.0, 0.5: 1.0}}), parallelize=False)
     infb = pg.Inference(bounds={'alpha': (1.05, 1.95)}, coal=mkb, loss=lambda c, o: 0.0, x0={'alpha': 1.5}, parallelize=False, pbar=False, cache=True)
